@@ -196,6 +196,12 @@ def tales_expr(ctx, kind, site):
                 good = ["prefix", "string", string_body(ctx)]
             elif p == 1:
                 good = ["prefix", "not", good]
+            elif p == 2 and d(st.booleans()):
+                # a bare name: a template variable, a Python builtin (found
+                # through the fallback of name resolution) or nothing at all
+                good = ["prefix", "exists", ["var", d(st.sampled_from(
+                    ["len", "max", "id", "s0", "nosuchname", "type",
+                     "d0"]))]]
             elif p == 2:
                 good = ["prefix", "exists", ["rec", sub, d(st.sampled_from(
                     NATURAL_FAIL + [["var", "s0"], ["var", "d0"]]))]]
